@@ -17,6 +17,7 @@
 //	    operator of member i+1). The position in the list is the message's identity (seq).
 //	    `st=<state index> can=<CanTransition> n=<history size> r0=… r5=<receivedMessages[T] as
 //	    sender.seq>`
+//	exec <n> <self> <excluded>   the REAL Executor.Execute with its own exclusion loop, see execop.go
 //	pub <n> <self> <dq> <seats> <session> <msgs>
 //	    result publication (dkg.Publish): resultSigningState over a result group in which <dq> are
 //	    disqualified; <msgs> = comma list of `kind.sender.operator.session.sigoperator` delivered to
@@ -376,6 +377,8 @@ func exec(op string) (string, string) {
 		return execParties(f)
 	case len(f) == 7 && f[0] == "recv":
 		return execRecv(f)
+	case len(f) == 4 && f[0] == "exec":
+		return execExec(f)
 	case len(f) == 7 && f[0] == "pub":
 		return execPub(f)
 	case len(f) == 6 && f[0] == "run":
@@ -634,6 +637,7 @@ func gen(r *hx.Rng, n int, tier string) []string {
 			ops = append(ops, genRecvComplete(r))
 		}
 	}
+	ops = append(ops, genExec(r, tier)...)
 	ops = append(ops, genRun(r, tier)...)
 	return ops
 }
